@@ -7,7 +7,7 @@
 (* harness/drv_image.c builds the freshly created replica from them.                                *)
 (* Used with -generate (random histories) and breadth-first (all histories of a small depth).       *)
 (* With Focus = TRUE only histories that keep calling the SAME setter, with a rendering before the  *)
-(* first call and after every call, are produced (after a prelude that makes the setter's effect    *)
+(* first call, after the last and optionally in between, are produced (after a prelude that makes the setter's effect    *)
 (* visible, see PreludeOf): set(v1); render; set(v2); render for all pairs                          *)
 (* of values of every setter -- the histories on which an early-return guard that compares too      *)
 (* little shows.                                                                                    *)
@@ -59,7 +59,7 @@ Choose == /\ name = "" /\ Steps < Depth
 
 Do == /\ name # "" /\ name' = ""
       /\ \E c \in {x \in SetCalls(P.type) : x.j = name}, r \in 0..1 :
-            /\ (Steps + 1 = Depth \/ Focus) => r = 1
+            /\ (Steps + 1 = Depth) => r = 1
             /\ \E Q \in PropStep(P, c) :
                   /\ P' = (IF r = 1 THEN ValidateP(Q) ELSE Q)
                   /\ hist' = Append(hist, [op |-> "set", j |-> c.j, v |-> c.v, r |-> r, want |-> Q.want])
